@@ -9,7 +9,7 @@ HARNESSES = [
     dict(name="cmp_sound", file="cmp_sound.c", loops=["check_file_range_equal"],
          label="proved", timeout=20, fp={"read_at": "stub_read_at"},
          cases=[dict(id="scr8192", defines={"SCR": 8192}, tier="quick")]),
-    dict(name="blk_dedup", file="blk_dedup.c", label="bounded(blocks<=4)", timeout=100,
+    dict(name="blk_dedup", file="blk_dedup.c", label="bounded(blocks<=4)", timeout=15,
          fp={"truncate": "stub_truncate", "destroy": "stub_unreachable_destroy",
              "get_size": "stub_unreachable_get_size", "write_at": "stub_unreachable_write_at"},
          cases=[dict(id="u%df%d" % (u, f), defines={"NB": 6, "USED": u, "FS": f}, unwind=7, tier="quick") for u,f in ((6,3),(6,2),(5,1),(4,2))]),
